@@ -35,6 +35,7 @@ package session
 //@   method GetCurrSeqNum(storageID fix.StorageID) (n int, err error):
 //@     pure
 //@     ensures[C10] imp(err == nil && storageID.Side == fix.Incoming, n == cIn(self))
+//@     ensures[C10] imp(err == nil && storageID.Side != fix.Incoming, n == cOut(self))
 //@   method SetSeqNum(storageID fix.StorageID, seqNum int) (err error):
 //@     modifies self.*, gOut(self), gIn(self)
 //@     ensures[C10] imp(err == nil && storageID.Side == fix.Incoming, cIn(self) == seqNum && cOut(self) == old(cOut(self)))
@@ -268,14 +269,17 @@ package session
 //@   call Unmarshal#1: witness perr = ret
 //@   call Unmarshal#1: witness req = arg0
 //@   call Messages#1: witness merr = ret1
+//@   call GetCurrSeqNum#1: witness cerr = ret1
 //@   call SendBatch#1:
 //@     witness berr = ret
 //@     inst j = j - mBeginSeqNo(req)
 //@   ensures[C16] @continues ok
 //@   ensures[C16] @damaged imp(!sendFailed && perr != nil, sentN == old(sentN) + 1 && rejectFor(s, sel(sentAt, old(sentN)), string(data)) && resentN == old(resentN))
 //@   ensures[C07,C16] @notlogged imp(!sendFailed && perr == nil && old(s.state) != SuccessfulLogged, resentN == old(resentN) && sentN == old(sentN) + 1 && rejectFor(s, sel(sentAt, old(sentN)), string(data)))
-//@   ensures[C10] @count imp(perr == nil && old(s.state) == SuccessfulLogged && merr == nil && berr == nil, resentN == old(resentN) + mEndSeqNo(req) - mBeginSeqNo(req) + 1)
-//@   ensures[C10] @exact imp(perr == nil && old(s.state) == SuccessfulLogged && merr == nil && berr == nil && mBeginSeqNo(req) <= j && j <= mEndSeqNo(req), sel(resentAt, old(resentN) + j - mBeginSeqNo(req)) == sel(gStored(s.messageStorage), j))
+//@   witness last = ite(mEndSeqNo(req) == 0, cOut(s.counter), mEndSeqNo(req))
+//@   witness served = perr == nil && old(s.state) == SuccessfulLogged && (mEndSeqNo(req) != 0 || cerr == nil) && merr == nil && berr == nil
+//@   ensures[C10] @count imp(served, resentN == old(resentN) + last - mBeginSeqNo(req) + 1)
+//@   ensures[C10] @exact imp(served && mBeginSeqNo(req) <= j && j <= last, sel(resentAt, old(resentN) + j - mBeginSeqNo(req)) == sel(gStored(s.messageStorage), j))
 //@   ensures[C10] @nothingelse imp(perr == nil && merr != nil, resentN == old(resentN))
-//@   ensures[C10] @toend imp(perr == nil && old(s.state) == SuccessfulLogged && berr == nil && mEndSeqNo(req) == 0 && 1 <= mBeginSeqNo(req) && mBeginSeqNo(req) <= cOut(s.counter) && allStored(gHas(s.messageStorage), mBeginSeqNo(req), cOut(s.counter)), resentN == old(resentN) + cOut(s.counter) - mBeginSeqNo(req) + 1)
+//@   ensures[C10] @toend imp(perr == nil && old(s.state) == SuccessfulLogged && cerr == nil && berr == nil && mEndSeqNo(req) == 0 && 1 <= mBeginSeqNo(req) && mBeginSeqNo(req) <= cOut(s.counter) && allStored(gHas(s.messageStorage), mBeginSeqNo(req), cOut(s.counter)), resentN == old(resentN) + cOut(s.counter) - mBeginSeqNo(req) + 1)
 //@   ensures[C16] @stable s.state == old(s.state)
